@@ -7,9 +7,9 @@ pc.install(globals(), "C11", "C11", "generators",
           "keeps up (sleep one period, receive twice) x cancel at a random point or never, from VERIF_SEED. Distinct by full observed trace; "
           "non-trivial when a value was delivered"),
     claim={
-        "text": "Theorems proved by the Coq kernel for every capacity, step function, frequency, consumer schedule and cancel point: what is delivered is a prefix of the exact successive sequence (seed, f seed, ... / f(0), f(1), ... with failing indices skipped under Try); pacing lower bound for ANY clock advance policy: k results available => k*frequency elapsed; after cancel the only state without an enabled step (and pending sleep) has the goroutine returned and both channels closed. PARTIAL: the upper bound 'a consumer that keeps up receives one value per tick' is not a theorem; it is checked by the oracle on every explored virtual-time schedule.",
+        "text": "Theorems proved by the Coq kernel for every capacity, step function, frequency, consumer schedule and cancel point: what is delivered is a prefix of the exact successive sequence (seed, f seed, ... / f(0), f(1), ... with failing indices skipped under Try); pacing lower bound for ANY clock advance policy: k results available => k*frequency elapsed (C11_emit_not_early); pacing upper bound under maximal progress with a consumer that keeps up (the clock moves only when no step of the goroutine is enabled and nothing is receivable on the value/error channel, never past a pending timer, no cancel): whenever the clock may move Emit has made n calls with n*freq <= now < (n+1)*freq and every result of these calls has been received (C11_emit_keeps_up, C11_emit_pace_invariant), so at time k*freq exactly k calls were made and value f(i) arrived at tick i+1 (C11_emit_one_per_tick), results received = now/freq (C11_emit_rate), with concrete maximal-progress runs as non-vacuity witnesses; after cancel the only state without an enabled step (and pending sleep) has the goroutine returned and both channels closed.",
         "design_ref": "DESIGN.md 3/C11",
-        "note": "Trusted: Coq kernel; Pool machine with a virtual clock; testing/synctest's fake clock in the harness. Real wall-clock behaviour of time.Sleep (only >= is promised by Go) is outside the model.",
-        "technique": "Coq proof (stream invariant + timing invariant by induction over executions) + trace-acceptance correspondence on virtual time",
+        "note": "Trusted: Coq kernel; Pool machine with a virtual clock; testing/synctest's fake clock in the harness. The upper bound is a theorem about maximal-progress executions only (the clock policy of the trace checker: C11_checker_clock_policy); the model evaluates f when an iteration starts while Go applies it after the sleep - emit_calls counts the Go applications. Real wall-clock behaviour of time.Sleep (only >= is promised by Go) is outside the model.",
+        "technique": "Coq proof (stream invariant + timing invariants by induction over executions; exact-time invariant over maximal-progress executions) + trace-acceptance correspondence on virtual time",
     },
     assumptions=["virtual clock of testing/synctest", "step functions are total; failing coded functions return the zero value"])
